@@ -45,6 +45,11 @@ def run(db, res, tier):
     lives[entry] = sorted(live)
     total_ev += nev
     nloop += r_live.check_loop_scratch(res, db, db.trace(entry), entry)
+  nflag = 0
+  allowed = state_keys() | set(live_tables.PERSISTENT) | set(live_tables.SLEEP_STATE) | set(live_tables.FLAG_STALE_OK)
+  for entry in ("forward.step", "forward.forward"):
+    nflag += r_live.check_flag_conditioned_liveness(res, db, entry, allowed)
+  res.floor("flag-conditioned liveness obligations", nflag, 20)
   # tabled constants really have no kernel writer
   all_lcs = db.launch_ctxs()
   written = set()
@@ -59,13 +64,13 @@ def run(db, res, tier):
   res.floor("trace events with effects", total_ev, 2500)
   res.floor("scatter-then-read instances inside host loops", nloop, 10)
   res.floor("live-in fields examined", sum(len(v) for v in lives.values()), 25)
-  res.rule_text = "R-LIVE: LiveIn(step) and LiveIn(forward) - array fields read (or accumulated into) by some launch/copy with no earlier possible definition in the same call - contain only Model fields, State.INTEGRATION fields, tabled sticky diagnostics / make_data constants and (with sleeping enabled) the persistent sleep state; scratch temporaries are never read before definition; R-LIVE.5: every kernel that allocates a slot of the flat contact buffer (re)defines every Contact field of the slot over its full trailing extent (slots are re-used across steps); R-LIVE.4: an array filled by sparse-column scatter (index loaded from a *colind field) and read densely later in the same iteration of a host loop (solver iterations, RK4 stages) is cleared inside the iteration before the scatter"
+  res.rule_text = "R-LIVE: LiveIn(step) and LiveIn(forward) - array fields read (or accumulated into) by some launch/copy with no earlier possible definition in the same call - contain only Model fields, State.INTEGRATION fields, tabled sticky diagnostics / make_data constants and (with sleeping enabled) the persistent sleep state; scratch temporaries are never read before definition; R-LIVE.6: for each single disable/enable flag, no read of a non-state Data field stays reachable (three-valued evaluation of host path conditions) while every earlier definition of the field in the same call becomes unreachable; R-LIVE.5: every kernel that allocates a slot of the flat contact buffer (re)defines every Contact field of the slot over its full trailing extent (slots are re-used across steps); R-LIVE.4: an array filled by sparse-column scatter (index loaded from a *colind field) and read densely later in the same iteration of a host loop (solver iterations, RK4 stages) is cleared inside the iteration before the scatter"
   res.explanation = (
     "Field-level def-use over the ordered host effect trace of step()/forward() (every launch resolved to its kernel's own read/write sets, launch-time literal arguments pruning dead branches). "
     "A may-define counts as a kill, so the analysis under-reports; every reported field is a definite read of a value that the call did not produce. "
     "Not decided: partial staleness inside arrays that are partly rewritten (rows >= nefc)."
   )
   res.extra["live_in"] = lives
-  res.extra["tables_used"] = {"PERSISTENT": live_tables.PERSISTENT, "SLEEP_STATE": live_tables.SLEEP_STATE}
+  res.extra["tables_used"] = {"PERSISTENT": live_tables.PERSISTENT, "SLEEP_STATE": live_tables.SLEEP_STATE, "FLAG_STALE_OK": live_tables.FLAG_STALE_OK}
   res.extra["analysed"] = {"entries": ["forward.step", "forward.forward"], "effect_events": total_ev}
   res.assumptions += ["sleep state (tree_asleep etc.) is persistent by design; C12's verdict covers models with sleeping disabled", "user callbacks are not modelled"]
